@@ -263,6 +263,21 @@ class Ctx:
                 res["assumptions"][th] = assum[i]
         if res["forbidden"]:
             res["ok"] = False
+        # thorough tier: re-check the compiled library closure with the independent checker
+        if self.tier == "thorough" and res["ok"] and not os.environ.get("VERIF_NO_COQCHK"):
+            t = time.time()
+            rc3, out3 = sh(["coqchk", "-o", "-silent", "-Q", ".", "PV", "PV.Props.Properties_%s" % pid], cwd=COQ, timeout=3000)
+            res["coqchk_s"] = round(time.time() - t, 1)
+            m = re.search(r"\* Axioms:(.*?)\n\s*\n\* Constants/Inductives relying on type-in-type:(.*?)\n\s*\n\* Constants/Inductives relying on unsafe \(co\)fixpoints:(.*?)\n\s*\n\* Inductives whose positivity is assumed:(.*?)\n", out3 + "\n", re.S)
+            if rc3 != 0 or not m:
+                res["ok"] = False
+                res["coqchk"] = "FAILED: " + out3[-800:]
+                res["first_error"] = {"file": vfile, "line": 0, "text": "coqchk rejected the compiled development: " + out3[-400:]}
+            else:
+                res["coqchk"] = {"axioms": " ".join(m.group(1).split()), "type_in_type": " ".join(m.group(2).split()),
+                                 "unsafe_fixpoints": " ".join(m.group(3).split()), "assumed_positivity": " ".join(m.group(4).split())}
+                if any(v != "<none>" for k, v in res["coqchk"].items() if k != "axioms"):
+                    res["ok"] = False
         self.proof = res
         return res
 
@@ -517,6 +532,10 @@ def proof_coverage(ctx, extra=None):
         "proof_build_s": pr.get("build_s"),
         "proof_ok": pr.get("ok", False),
     }
+    if pr.get("coqchk") is not None:
+        cov["coqchk"] = pr["coqchk"]
+        cov["coqchk_s"] = pr.get("coqchk_s")
+        tb.append("coqchk -o (independent checker, thorough tier): %s" % (pr["coqchk"],))
     if extra:
         cov.update(extra)
     return cov
